@@ -23,6 +23,8 @@ def parse_steps(lines):
         if kind == "result":
             cur["result"] = f[2]
             continue
+        if kind in ("target", "move", "gens", "fmt", "Q"):
+            continue
         cur["raw"].append(" ".join(f[1:]))
         if kind == "route":
             cur["routes"][int(f[2])] = [int(x) for x in f[4:]]
@@ -223,9 +225,10 @@ def ok_C05(ctx, snap):
         exp["travel_duration"] = o["f_travel"] * sum(ctx.schedule(v, r)[-1][1] for v, r in snap["routes"].items())
     if o["f_unplanned"] > 0:
         val = 0
-        for u in m["units"]:
-            if not any(s in on_route for s in u["stops"]):
-                val += sum(1000000 if m["stops"][s]["penalty"] is None else m["stops"][s]["penalty"] for s in u["stops"])
+        for k, stops_ in top_units(m).items():
+            # a top-level unit is unplanned unless all its stops are on routes
+            if not all(s in on_route for s in stops_):
+                val += sum(1000000 if m["stops"][s]["penalty"] is None else m["stops"][s]["penalty"] for s in stops_)
         exp["unplanned_penalty"] = o["f_unplanned"] * val
     if o["f_activation"] > 0 and any((ve["activation"] or 0) != 0 for ve in m["vehicles"]):
         exp["vehicle_activation_penalty"] = o["f_activation"] * sum(
@@ -239,10 +242,32 @@ def ok_C05(ctx, snap):
     return fails
 
 
+def top_units(m):
+    """top-level units: key -> list of stops; members of a group are not top-level"""
+    member = {ui for g in m.get("groups", []) for ui in g}
+    tops = {}
+    for ui, u in enumerate(m["units"]):
+        if ui not in member:
+            tops[min(u["stops"])] = list(u["stops"])
+    for g in m.get("groups", []):
+        stops = [x for ui in g for x in m["units"][ui]["stops"]]
+        tops[1000 + min(stops)] = stops
+    return tops
+
+
+def fixed_stops(m):
+    out = {}
+    for v, ve in enumerate(m["vehicles"]):
+        for x, fx in ve.get("initial", []):
+            if fx:
+                out[x] = v
+    return out
+
+
 def ok_C08(ctx, snap):
     m = ctx.m
     fails = []
-    keys = {min(u["stops"]): u for u in m["units"]}
+    keys = {k: {"stops": st} for k, st in top_units(m).items()}
     on_route = {s for r in snap["routes"].values() for s in r[1:-1]}
     cols = {"planned": snap["planned"], "unplanned": snap["unplanned"], "fixed": snap["fixed"]}
     for name, c in cols.items():
@@ -287,6 +312,16 @@ def ok_C03(ctx, snap):
                 fails.append("s%d must precede s%d" % (a, b))
             if d and pos[b][1] != pos[a][1] + 1:
                 fails.append("s%d must directly precede s%d (positions %d, %d)" % (a, b, pos[a][1], pos[b][1]))
+    for g in m.get("groups", []):
+        stops_ = [x for ui in g for x in m["units"][ui]["stops"]]
+        on = [x for x in stops_ if x in seen]
+        if on and (len(on) != len(stops_) or len({pos[x][0] for x in stops_}) != 1):
+            fails.append("stop group %s is split: on routes %s" % (stops_, {x: pos[x][0] for x in on}))
+    for x, v in fixed_stops(m).items():
+        if x in seen and pos[x][0] != v:
+            fails.append("fixed stop s%d is on vehicle %d, not on its vehicle %d" % (x, pos[x][0], v))
+        if x not in seen and snap.get("_started_with", {}).get(x):
+            fails.append("fixed stop s%d left its vehicle %d" % (x, v))
     return fails
 
 
